@@ -178,6 +178,52 @@ class Ctx:
             node = found
         return node, path
 
+    def module_const(self, module_rel, name):
+        """the defining expression of a module-level CONSTANT `name`, or None: bound exactly once at module level (plain `name = expr`), never
+        declared `global` in a function, never the target of an augmented assignment / del / import, and `expr` is an immutable display: literals,
+        tuples of such, dotted names of classes / builtin types (np.integer, int), str concatenations / `%`-free implicit joins of literals"""
+        key = (module_rel, name)
+        cache = self.__dict__.setdefault("_module_consts", {})
+        if key in cache:
+            return cache[key]
+        cache[key] = None
+        try:
+            tree = ast.parse(open(os.path.join(self.repo, module_rel), newline=None).read())
+        except (OSError, SyntaxError):
+            return None
+        binds = [n for n in tree.body if isinstance(n, ast.Assign) and any(isinstance(t, ast.Name) and t.id == name for t in n.targets)]
+        if len(binds) != 1 or len(binds[0].targets) != 1:
+            return None
+        for n in ast.walk(tree):
+            if isinstance(n, (ast.Global, ast.Nonlocal)) and name in n.names:
+                return None
+            if isinstance(n, (ast.AugAssign, ast.AnnAssign)) and isinstance(n.target, ast.Name) and n.target.id == name:
+                return None
+            if isinstance(n, ast.Delete) and any(isinstance(t, ast.Name) and t.id == name for t in n.targets):
+                return None
+            if isinstance(n, ast.Name) and n.id == name and isinstance(n.ctx, ast.Store) and n is not binds[0].targets[0] \
+                    and not any(n in ast.walk(f) for f in ast.walk(tree) if isinstance(f, (ast.FunctionDef, ast.Lambda))):
+                return None                     # rebound somewhere else at module / class level (loop target, with-as, ...)
+
+        def immutable(x):
+            if isinstance(x, ast.Constant):
+                return not isinstance(x.value, bytes) or True
+            if isinstance(x, ast.Tuple):
+                return all(immutable(y) for y in x.elts)
+            if isinstance(x, ast.Name):
+                return x.id in BUILTIN_TYPES or x.id in ("True", "False", "None")
+            if isinstance(x, ast.Attribute):
+                return isinstance(x.value, ast.Name) and x.value.id in MODULE_ALIASES
+            if isinstance(x, ast.UnaryOp) and isinstance(x.op, (ast.USub, ast.UAdd)):
+                return isinstance(x.operand, ast.Constant)
+            if isinstance(x, ast.BinOp) and isinstance(x.op, ast.Add):
+                return all(isinstance(y, ast.Constant) and isinstance(y.value, str) for y in (x.left, x.right)) or (immutable(x.left) and immutable(x.right)
+                                                                                                                     and isinstance(x.left, (ast.Constant, ast.BinOp)))
+            return False
+        if immutable(binds[0].value):
+            cache[key] = binds[0].value
+        return cache[key]
+
     def globals_of(self, fname):
         return self.cur_globals
 
